@@ -7,6 +7,21 @@ VERIF = os.path.dirname(os.path.dirname(os.path.dirname(os.path.abspath(__file__
 
 # id -> (built?, level category, technique, level text, level note, engine, design ref)
 CHECKS = {
+    'C01': (True, 'exploration',
+            'Hypothesis structured generation + enumerated sub-item adjacencies; round-trip oracle',
+            'Thousands of generated PDUs of all 7 types (items in any order, 9 sub-item kinds, '
+            'boundary integers, payloads beyond 64 KiB) and all 81+9 sub-item adjacencies are '
+            'round-tripped: recursive field equality and byte-exact re-encoding.',
+            'Round-trip only (conformance is C02). Generated values are restricted to what the '
+            'public constructors document (AE <=16 chars, UID <=64 chars, item totals < 64 KiB).',
+            'pdugen', 'DESIGN.md#C01'),
+    'C02': (True, 'exploration',
+            'Hypothesis differential against an independent strict reference PDU codec, both directions',
+            'Library output is parsed by a strict length-driven reference parser (fields and every '
+            'self-reported length compared); reference-encoded conformant PDUs (any sub-item order, '
+            'unknown sub-item types, several syntaxes/PDVs) are decoded by the library and compared.',
+            'Trusts vf/refpdu.py (about 300 lines transcribed from PS3.8 9.3 / PS3.7 Annex D, with a '
+            'self-test); AE titles compared modulo padding.', 'refpdu', 'DESIGN.md#C02'),
     'C18': (True, 'exploration',
             'exhaustive enumeration against an independent status table + metamorphic precedence test',
             'All 65536 codes x 24 command choices are constructed and compared with a table '
@@ -68,6 +83,10 @@ def main():
 
 
 ENGINES = [
+    {'name': 'refpdu', 'path': 'vf/refpdu.py', 'serves_properties': ['C02', 'C03', 'C04', 'C05', 'C09', 'C10', 'C11', 'C12', 'C13', 'C14'],
+     'kind_free_text': 'independent strict PDU reference encoder/parser (PS3.8 9.3, PS3.7 Annex D)'},
+    {'name': 'pdugen', 'path': 'vf/pdugen.py', 'serves_properties': ['C01', 'C02', 'C04', 'C05', 'C12'],
+     'kind_free_text': 'Hypothesis strategies for plain-data PDU specs; spec <-> library object bridge'},
     {'name': 'runner', 'path': 'vf/common.py', 'serves_properties': [],
      'kind_free_text': 'case accounting, Hypothesis collect-then-shrink driver, evidence, replay, known findings'},
 ]
